@@ -5,7 +5,7 @@ cd "$(dirname "$0")"
 export GOFLAGS=-mod=mod GOPROXY=off GOSUMDB=off GOTOOLCHAIN=local CGO_ENABLED=1
 ( cd shim/gothemis && go test -count=1 ./... )
 mkdir -p .bin evidence
-( cd harness && go build -tags "verif verif_all" -o ../.bin/mon-setup ./cmd/mon )
-( cd harness && go build -tags "verif verif_all" -race -o ../.bin/mon-setup-race ./cmd/mon )
+( cd harness && go build -tags "verif verif_hook_ks_cache verif_all" -o ../.bin/mon-setup ./cmd/mon )
+( cd harness && go build -tags "verif verif_hook_ks_cache verif_all" -race -o ../.bin/mon-setup-race ./cmd/mon )
 rm -f .bin/mon-setup .bin/mon-setup-race
 echo setup ok
